@@ -72,42 +72,7 @@ def run(ctx):
         if name not in EXC:
             r.violate("common." + name, f"state field `{name}` exists in both Lexer and TagScanner but is neither carried by the bookmark nor re-established at a switch", None)
 
-    # ------------------------------------------------------------------ R06.2
-    r = ctx.rule("R06.2", "per-tag scratch of the tag scanner is reset on every continuing exit of finish_tag_name (sticky fields = set by create_end_tag but not re-initialised by create_start_tag, plus the tag start mark)", "E-AST+E-MIR", floor=3)
-    ms = impl_methods(idx, "TagScanner", "StateMachineActions")
-    if "create_start_tag" not in ms or "create_end_tag" not in ms:
-        raise EngineError("R06.2 anchor: TagScanner::create_start_tag/create_end_tag")
-    w_start = set(f for f, e, _ in field_effects(ms["create_start_tag"]))
-    w_end = set(f for f, e, _ in field_effects(ms["create_end_tag"]))
-    sticky = sorted(w_end - w_start)
-    r.analysed["sticky_fields"] = sticky
-    if not sticky:
-        raise EngineError("R06.2: no sticky per-tag field found (anchor moved)")
-    f = mir.fn("TagScanner::finish_tag_name[StateMachineActions]")
-    cont = [bi for bi, t in f.calls(r"change_parser_directive$")]
-    okret = [bi for bi, b in enumerate(f.blocks) for st in b["stmts"] if st["k"] == "assign" and st["p"]["local"] == 0 and not st["p"]["proj"] and st["rv"]["k"] == "agg" and st["rv"]["name"].endswith("Result::Ok")]
-    exits = [("switch-to-lexer#%d" % i, b) for i, b in enumerate(cont)] + [("stay#%d" % i, b) for i, b in enumerate(okret)]
-    r.count("continuing_exits", len(exits))
-    if len(cont) < 2 or len(okret) < 1:
-        raise EngineError("R06.2: expected >=2 change_parser_directive exits and >=1 Ok exit in finish_tag_name")
-    for fld in sticky:
-        ws = [bi for f2, bi, st in mir.field_writes("TagScanner", fld) if f2 is f]
-        for name, e in exits:
-            key = f"{fld}|{name}"
-            r.inst(key, sample={"field": fld, "exit": name})
-            if not any(f.dominates(w, e) for w in ws):
-                r.violate(key, f"TagScanner::finish_tag_name can leave through `{name}` without resetting `{fld}`: the next tag seen by the scanner would be treated with the stale value (e.g. a start tag handled as an end tag)", f.loc())
-    takes = [bi for bi, t in f.calls(r"Option::take$") if "tag_start" in f.describe_operand(t["args"][0])]
-    for name, e in exits:
-        key = f"tag_start|{name}"
-        r.inst(key)
-        if not any(f.dominates(w, e) for w in takes):
-            r.violate(key, f"finish_tag_name can leave through `{name}` without releasing tag_start", f.loc())
-    # the value used for the hint is the one read *before* the reset
-    eh = list(f.calls(r"TagScanner::emit_tag_hint$"))
-    r.inst("hint-arg")
-    if len(eh) != 1 or f.describe_operand(eh[0][1]["args"][3]) != "is_in_end_tag":
-        r.violate("hint-arg", "emit_tag_hint is not given the saved is_in_end_tag value", f.loc())
+    rule_sticky_scratch(ctx, mir, idx)
 
     # ------------------------------------------------------------------ R06.3
     r = ctx.rule("R06.3", "stale hint flag: Dispatcher.got_flags_from_hint becomes true only when the hint switches the parser to the lexer; it is cleared when consumed and on the aux-info path", "E-MIR", floor=3)
@@ -200,3 +165,43 @@ def run(ctx):
     ctx.not_decided += ["equality of event logs under handler sets H and H ∪ O as such (relation between two runs)"]
     return ("Rules on the hand-over between the tag scanner and the lexer: type-driven bookmark completeness, reset of sticky per-tag scratch on "
             "every continuing exit of finish_tag_name (CFG dominance), the stale-hint-flag protocol and once-per-tag tree-builder feedback.")
+
+
+def rule_sticky_scratch(ctx, mir, idx, rid="R06.2"):
+    # ------------------------------------------------------------------ R06.2
+    r = ctx.rule(rid, "per-tag scratch of the tag scanner is reset on every continuing exit of finish_tag_name (sticky fields = set by create_end_tag but not re-initialised by create_start_tag, plus the tag start mark)", "E-AST+E-MIR", floor=3)
+    ms = impl_methods(idx, "TagScanner", "StateMachineActions")
+    if "create_start_tag" not in ms or "create_end_tag" not in ms:
+        raise EngineError("R06.2 anchor: TagScanner::create_start_tag/create_end_tag")
+    w_start = set(f for f, e, _ in field_effects(ms["create_start_tag"]))
+    w_end = set(f for f, e, _ in field_effects(ms["create_end_tag"]))
+    sticky = sorted(w_end - w_start)
+    r.analysed["sticky_fields"] = sticky
+    if not sticky:
+        raise EngineError("R06.2: no sticky per-tag field found (anchor moved)")
+    f = mir.fn("TagScanner::finish_tag_name[StateMachineActions]")
+    cont = [bi for bi, t in f.calls(r"change_parser_directive$")]
+    okret = [bi for bi, b in enumerate(f.blocks) for st in b["stmts"] if st["k"] == "assign" and st["p"]["local"] == 0 and not st["p"]["proj"] and st["rv"]["k"] == "agg" and st["rv"]["name"].endswith("Result::Ok")]
+    exits = [("switch-to-lexer#%d" % i, b) for i, b in enumerate(cont)] + [("stay#%d" % i, b) for i, b in enumerate(okret)]
+    r.count("continuing_exits", len(exits))
+    if len(cont) < 2 or len(okret) < 1:
+        raise EngineError("R06.2: expected >=2 change_parser_directive exits and >=1 Ok exit in finish_tag_name")
+    for fld in sticky:
+        ws = [bi for f2, bi, st in mir.field_writes("TagScanner", fld) if f2 is f]
+        for name, e in exits:
+            key = f"{fld}|{name}"
+            r.inst(key, sample={"field": fld, "exit": name})
+            if not any(f.dominates(w, e) for w in ws):
+                r.violate(key, f"TagScanner::finish_tag_name can leave through `{name}` without resetting `{fld}`: the next tag seen by the scanner would be treated with the stale value (e.g. a start tag handled as an end tag)", f.loc())
+    takes = [bi for bi, t in f.calls(r"Option::take$") if "tag_start" in f.describe_operand(t["args"][0])]
+    for name, e in exits:
+        key = f"tag_start|{name}"
+        r.inst(key)
+        if not any(f.dominates(w, e) for w in takes):
+            r.violate(key, f"finish_tag_name can leave through `{name}` without releasing tag_start", f.loc())
+    # the value used for the hint is the one read *before* the reset
+    eh = list(f.calls(r"TagScanner::emit_tag_hint$"))
+    r.inst("hint-arg")
+    if len(eh) != 1 or f.describe_operand(eh[0][1]["args"][3]) != "is_in_end_tag":
+        r.violate("hint-arg", "emit_tag_hint is not given the saved is_in_end_tag value", f.loc())
+
